@@ -3,6 +3,8 @@ CONSTANTS
   MaxCands = 1
   NFill = 1
   Layouts = {"one"}
+  MaxAttempts = 3
+  RetryRaw = FALSE
 INIT Init
 NEXT Stutter
 INVARIANT Emit
